@@ -30,11 +30,11 @@ class Boom(Exception):
 def plan(tier, seed):
     if tier == 'quick':
         return {'n': 12000, 'deadline': 150,
-                'floor': {'distinct_nontrivial': 2000, 'python_predicate_calls': 20000, 'style_inferred': 1000,
+                'floor': {'callable_wrapped': 1, 'callable_partial': 1, 'callable_method': 1, 'distinct_nontrivial': 2000, 'python_predicate_calls': 20000, 'style_inferred': 1000,
                           'style_explicit': 1000, 'style_variadic': 1000, 'exception_identity_checked': 500,
                           'next_to_dynamic_facts': 500, 'trace_compared': 3000}}
     return {'n': 300000, 'deadline': 560,
-            'floor': {'distinct_nontrivial': 40000, 'python_predicate_calls': 400000, 'style_inferred': 20000,
+            'floor': {'callable_wrapped': 1, 'callable_partial': 1, 'callable_method': 1, 'distinct_nontrivial': 40000, 'python_predicate_calls': 400000, 'style_inferred': 20000,
                       'style_explicit': 20000, 'style_variadic': 20000, 'exception_identity_checked': 10000,
                       'next_to_dynamic_facts': 10000, 'trace_compared': 60000}}
 
@@ -122,6 +122,14 @@ def run_case(ctx, seed, idx, tier):
     keys = sorted(fp)
     subset = [k for k in keys if rng.random() < 0.5] or [rng.choice(keys)]
     styles = {k: rng.choice(['inferred', 'explicit', 'variadic']) for k in subset}
+    # a name has ONE variadic slot: when a predicate name occurs with several arities, at most one of them is
+    # registered variadically (a second variadic registration of the name would replace the first one)
+    seen_variadic = set()
+    for k in subset:
+        if styles[k] == 'variadic':
+            if k[0] in seen_variadic or sum(1 for k2 in keys if k2[0] == k[0]) > 1:
+                styles[k] = 'explicit'
+            seen_variadic.add(k[0])
     # the yielded value is irrelevant: True, False, and what a bare `yield` gives
     yvs = {k: rng.choice([True, False, False, None, 0, 1]) for k in subset}
     order = rng.choice(['register_first', 'load_first_full', 'load_first_stripped'])
